@@ -186,7 +186,17 @@ def run_case(args):
             joined = False
             if ending.startswith("kill"):
                 o.send("KILL vic :stuck one")
-                ol = o.ping("k")
+                if rng.random() < 0.6:
+                    # the victim's session is over but its task is not: a second KILL finds it half gone
+                    o.send("KILL vic :stuck one, again")
+                try:
+                    ol = o.ping("k")
+                except (wire.Closed, wire.Timeout) as ex:
+                    bad("killer-dropped", "the operator who KILLed the stuck session (twice) got no answer to its next PING "
+                        "(%s): KILL ends exactly the named user's session" % type(ex).__name__)
+                    if hooks and srv.snap()["handler_aborts"]:
+                        bad("handler-abort", "a handler aborted: %s" % (srv.panics()[0][-2:],))
+                    return out
                 out["events"] += len(ol)
                 n.send("NICK vic")
                 n.send("USER claim 0 * :claimant")
